@@ -300,6 +300,13 @@ def job_discover_timing(job):
                     return n, "discover-timing", f"{label}: the {name} console answered in time but is missing from the result {sorted(got)}"
                 if (t is None or t > 1.5) and name in got:
                     return n, "discover-timing", f"{label}: {name} reported although it did not answer in time"
+            # each client carries the data of its own datagram (and the fixed AirTouch 4 name), whichever search finished first
+            exp_by_model = {"AIRTOUCH_4": ("192.168.1.5", "4001", "AirTouch 4", 9004),
+                            "AIRTOUCH_5": ("192.168.1.5", "5001", "Home, sweet, home", 9005)}
+            for a in out["r"]:
+                seen = (a.host, a.airtouch_id, a.name, a._socket.port)
+                if seen != exp_by_model[a.model.name]:
+                    return n, "discover-timing", f"{label}: the {a.model.name} client carries {seen}, its datagram said {exp_by_model[a.model.name]}"
             if len(out["r"]) != len(got):
                 return n, "discover-timing", f"{label}: duplicate clients {out['r']}"
             if out["t"] > 1.5:
